@@ -1285,6 +1285,9 @@ func runHistories(c *vh.Ctx, c01, c03 bool) {
 		}
 		return
 	}
+	if c01 && stratumK.enabled() {
+		runProbes(c)
+	}
 	for _, st := range strata {
 		if !st.enabled() {
 			continue
